@@ -713,6 +713,28 @@ impl VerifBox for IdentityBox {
             ["pv", rest @ ..] => self.pv(rest),
             ["hs", rest @ ..] => self.hs(rest),
             ["rg", rest @ ..] => self.rg(rest),
+            ["nc", rest @ ..] => {
+                let args = kv(rest);
+                let idx = |k: &str| args.get(k).and_then(|s| s.parse::<usize>().ok()).filter(|i| *i < KEYS);
+                let (Some(d), Some(l)) = (idx("d"), idx("l")) else { return "bad-op".into() };
+                let dialed = match args.get("dialed").copied() {
+                    Some("none") => None,
+                    Some(_) => match idx("dialed") {
+                        Some(i) => Some(i),
+                        None => return "bad-op".into(),
+                    },
+                    None => return "bad-op".into(),
+                };
+                // only the body of handshake message 3 (stream offsets 64..232 of the dialer's output)
+                let flip = match args.get("flip") {
+                    None => None,
+                    Some(s) => match s.parse::<usize>() {
+                        Ok(o) if (64..232).contains(&o) => Some(o),
+                        _ => return "bad-op".into(),
+                    },
+                };
+                crate::transport::tcp::verif_c01_tcp::negotiate(d, l, dialed, flip)
+            }
             _ => "bad-op".into(),
         }
     }
